@@ -26,8 +26,10 @@ EXTENDS Naturals, Sequences, FiniteSets, TLC
 
 CONSTANTS NT, NX, NV, MaxIds, MaxCommits, MaxLocks,
           RcRoots,     \* column is ref_counted + preimage: roots carry a count
+          AO,          \* append_only column: nothing is ever dereferenced, no node counts
           Fine,        \* TRUE: the log worker's deferral check and its plan are separate steps
           Fix,         \* subset of {"F18"}: repairs applied to the code
+          Mut,         \* subset of {"no_inc", "no_defer", "no_used"}: guards dropped (necessity configs)
           Shapes(_)    \* menu of child lists for a new tree, given the set of referable ids
 
 TKeys == 1..NT
@@ -37,10 +39,10 @@ NoRoot == [rc |-> 0, data |-> 0, kids |-> <<>>]
 NoTx == [cid |-> 0, tree |-> [t |-> "none"], set |-> [x |-> 0, v |-> 0], used |-> {}]
 
 VARIABLES roots, nrc, nkids, xs, covlT, covlX, queue, inflight, toDeref, locked, snap,
-          nextId, nextCid, ncommits, nlocks, ideal, idealX, conflict, corrupt, hist
+          nextId, nextCid, ncommits, nlocks, ideal, idealX, conflictT, conflictX, corrupt, hist
 
 vars == <<roots, nrc, nkids, xs, covlT, covlX, queue, inflight, toDeref, locked, snap,
-          nextId, nextCid, ncommits, nlocks, ideal, idealX, conflict, corrupt, hist>>
+          nextId, nextCid, ncommits, nlocks, ideal, idealX, conflictT, conflictX, corrupt, hist>>
 
 SeqSet(s) == {s[i] : i \in DOMAIN s}
 
@@ -59,6 +61,11 @@ VisibleX(x) == IF covlX[x].cid # 0 THEN covlX[x].v ELSE xs[x]
 \* and nodes of trees it holds a reader lock on
 Refable == UNION {Reach(ideal[k].kids) : k \in {k \in TKeys : ideal[k].rc > 0}}
            \cup UNION {Reach(snap[k].kids) : k \in locked}
+
+\* with the repair the log worker holds the tree's write lock from its deferral check to the end
+\* of its plan; without it the lock is only taken for the walk itself (atomic inside Apply)
+WLocked == IF "F18" \in Fix /\ inflight # <<>> /\ inflight[1].tree.t = "deref"
+           THEN {inflight[1].tree.k} ELSE {}
 
 \* claim_tree_values: new nodes get ids in pre-order; existing children become increments
 RECURSIVE Flat(_, _)
@@ -83,7 +90,7 @@ Init ==
     /\ toDeref = [k \in TKeys |-> 0] /\ locked = {} /\ snap = [k \in TKeys |-> NoRoot]
     /\ nextId = 1 /\ nextCid = 1 /\ ncommits = 0 /\ nlocks = 0
     /\ ideal = [k \in TKeys |-> NoRoot] /\ idealX = [x \in XKeys |-> 0]
-    /\ conflict = FALSE /\ corrupt = FALSE /\ hist = <<>>
+    /\ conflictT = {} /\ conflictX = {} /\ corrupt = FALSE /\ hist = <<>>
 
 --------------------------------------------------------------------------
 (* Client: commit_changes.  A transaction is one optional tree operation   *)
@@ -99,9 +106,12 @@ CommitIns(k, sh, st) ==
     /\ LET f == Flat(sh, nextId)
            root == [rc |-> 1, data |-> nextCid, kids |-> f.kids]
            tx == [cid |-> nextCid,
-                  tree |-> [t |-> "ins", k |-> k, root |-> root, new |-> f.new, incs |-> f.incs],
+                  tree |-> [t |-> "ins", k |-> k, root |-> root, new |-> f.new,
+                           incs |-> IF AO THEN <<>> ELSE f.incs],
                   set |-> st,
-                  used |-> {k2 \in TKeys : toDeref[k2] > 0 /\ k2 \in locked}] IN
+                  \* is_locked() is also true while the log worker holds the write lock
+                  used |-> IF "no_used" \in Mut THEN {}
+                           ELSE {k2 \in TKeys : toDeref[k2] > 0 /\ k2 \in (locked \cup WLocked)}] IN
        /\ f.next - 1 <= MaxIds
        /\ nkids' = [n \in Ids |-> IF \E i \in DOMAIN f.new : f.new[i].id = n
                                   THEN (CHOOSE e \in SeqSet(f.new) : e.id = n).kids ELSE nkids[n]]
@@ -114,6 +124,7 @@ CommitIns(k, sh, st) ==
     /\ UNCHANGED <<toDeref>>
 
 CommitDeref(k, st) ==
+    /\ ~AO
     /\ ideal[k].rc > 0 /\ VisibleRoot(k).rc > 0
     /\ LET tx == [cid |-> nextCid, tree |-> [t |-> "deref", k |-> k, kids |-> VisibleRoot(k).kids],
                   set |-> st, used |-> {}] IN
@@ -124,7 +135,7 @@ CommitDeref(k, st) ==
     /\ UNCHANGED <<nkids, nrc, nextId, covlT>>
 
 CommitRef(k, st) ==
-    /\ RcRoots /\ ideal[k].rc > 0
+    /\ RcRoots /\ ~AO /\ ideal[k].rc > 0
     /\ LET tx == [cid |-> nextCid, tree |-> [t |-> "ref", k |-> k], set |-> st, used |-> {}] IN
        /\ queue' = Append(queue, tx)
        /\ hist' = Append(hist, [a |-> "Commit", tx |-> tx, sh |-> <<>>])
@@ -148,15 +159,10 @@ Commit ==
        /\ covlX' = IF st.x = 0 THEN covlX ELSE [covlX EXCEPT ![st.x] = [cid |-> nextCid, v |-> st.v]]
        /\ idealX' = IF st.x = 0 THEN idealX ELSE [idealX EXCEPT ![st.x] = st.v]
     /\ nextCid' = nextCid + 1 /\ ncommits' = ncommits + 1
-    /\ UNCHANGED <<roots, xs, inflight, locked, snap, nlocks, conflict, corrupt>>
+    /\ UNCHANGED <<roots, xs, inflight, locked, snap, nlocks, conflictT, conflictX, corrupt>>
 
 --------------------------------------------------------------------------
 (* Readers: get_tree(..).read() + get_root() under the lock                *)
-
-\* with the repair the log worker holds the tree's write lock from its deferral check to the end
-\* of its plan; without it the lock is only taken for the walk itself (atomic inside Apply)
-WLocked == IF "F18" \in Fix /\ inflight # <<>> /\ inflight[1].tree.t = "deref"
-           THEN {inflight[1].tree.k} ELSE {}
 
 Lock(k) ==
     /\ k \notin locked /\ nlocks < MaxLocks /\ VisibleRoot(k).rc > 0
@@ -165,22 +171,23 @@ Lock(k) ==
     /\ nlocks' = nlocks + 1
     /\ hist' = Append(hist, [a |-> "Lock", k |-> k])
     /\ UNCHANGED <<roots, nrc, nkids, xs, covlT, covlX, queue, inflight, toDeref, nextId, nextCid,
-                   ncommits, ideal, idealX, conflict, corrupt>>
+                   ncommits, ideal, idealX, conflictT, conflictX, corrupt>>
 
 Unlock(k) ==
     /\ k \in locked
     /\ locked' = locked \ {k} /\ snap' = [snap EXCEPT ![k] = NoRoot]
     /\ hist' = Append(hist, [a |-> "Unlock", k |-> k])
     /\ UNCHANGED <<roots, nrc, nkids, xs, covlT, covlX, queue, inflight, toDeref, nextId, nextCid,
-                   ncommits, nlocks, ideal, idealX, conflict, corrupt>>
+                   ncommits, nlocks, ideal, idealX, conflictT, conflictX, corrupt>>
 
 --------------------------------------------------------------------------
 (* Log worker: process_commits                                             *)
 
 TreeKeyOf(tx) == IF tx.tree.t = "none" THEN {} ELSE {tx.tree.k}
-Conflicts(a, b) == (a.set.x # 0 /\ a.set.x = b.set.x) \/ (TreeKeyOf(a) \cap TreeKeyOf(b) # {})
+conflict == conflictT # {} \/ conflictX # {}
 
 MustDefer(tx, rest) ==
+    /\ "no_defer" \notin Mut
     /\ tx.tree.t = "deref"
     /\ \/ tx.tree.k \in locked
        \/ \E i \in DOMAIN rest : tx.tree.k \in rest[i].used
@@ -196,7 +203,8 @@ Defer ==
        /\ rest # <<>>               \* alone in the queue: same id, nothing changes (the worker spins)
        /\ queue' = Append(rest, tx2)
        /\ covlX' = IF tx.set.x = 0 THEN covlX ELSE [covlX EXCEPT ![tx.set.x] = [cid |-> nextCid, v |-> tx.set.v]]
-       /\ conflict' = (conflict \/ \E i \in DOMAIN rest : Conflicts(tx, rest[i]))
+       /\ conflictT' = conflictT \cup {k \in TreeKeyOf(tx) : \E i \in DOMAIN rest : k \in TreeKeyOf(rest[i])}
+       /\ conflictX' = conflictX \cup {x \in XKeys : x = tx.set.x /\ \E i \in DOMAIN rest : rest[i].set.x = x}
        /\ hist' = Append(hist, [a |-> "Defer", cid |-> tx.cid, ncid |-> nextCid])
     /\ nextCid' = nextCid + 1
     /\ UNCHANGED <<roots, nrc, nkids, xs, covlT, inflight, toDeref, locked, snap, nextId, ncommits,
@@ -228,7 +236,7 @@ PopOK(tx, rest) ==
 ApplyTx(tx) ==
     LET t == tx.tree
         st0 == [rc |-> nrc, bad |-> FALSE]
-        st1 == IF t.t = "ins" THEN IncAll(t.incs, st0)
+        st1 == IF t.t = "ins" THEN (IF "no_inc" \in Mut THEN st0 ELSE IncAll(t.incs, st0))
                ELSE IF t.t = "deref" /\ roots[t.k].rc = 1 THEN Walk(t.kids, st0)
                ELSE st0 IN
     /\ roots' = IF t.t = "ins"
@@ -254,7 +262,7 @@ Pop ==
     /\ inflight' = <<Head(queue)>> /\ queue' = Tail(queue)
     /\ hist' = Append(hist, [a |-> "Pop", cid |-> Head(queue).cid])
     /\ UNCHANGED <<roots, nrc, nkids, xs, covlT, covlX, locked, snap, nextId, nextCid, ncommits,
-                   nlocks, ideal, idealX, conflict, corrupt>>
+                   nlocks, ideal, idealX, conflictT, conflictX, corrupt>>
 
 \* ... and the plan + end_record + overlay cleanup
 Apply ==
@@ -265,7 +273,7 @@ Apply ==
        /\ hist' = Append(hist, [a |-> "Apply", cid |-> tx.cid])
     /\ inflight' = <<>>
     /\ UNCHANGED <<nkids, queue, toDeref, locked, snap, nextId, nextCid, ncommits, nlocks, ideal,
-                   idealX, conflict>>
+                   idealX, conflictT, conflictX>>
 
 \* coarse: one process_commits() call of the stepping API
 Process ==
@@ -276,7 +284,7 @@ Process ==
        /\ hist' = Append(hist, [a |-> "Process", cid |-> tx.cid])
     /\ queue' = Tail(queue)
     /\ UNCHANGED <<nkids, inflight, locked, snap, nextId, nextCid, ncommits, nlocks, ideal, idealX,
-                   conflict>>
+                   conflictT, conflictX>>
 
 Next == Commit \/ (\E k \in TKeys : Lock(k) \/ Unlock(k)) \/ Defer \/ Pop \/ Apply \/ Process
 
@@ -293,18 +301,24 @@ TypeOK ==
 \* C10/C11: the implementation never increments, decrements or walks a freed node
 NoCorrupt == ~corrupt
 
+\* The keys in conflictT / conflictX were written by a deferred commit that was moved behind a later
+\* commit writing the same key (known finding F3): the properties are stated for all other keys.
+
 \* C11: a locked reader sees the tree it locked, whole
 ReaderStable ==
-    \A k \in locked : VisibleRoot(k) = snap[k] /\ \A n \in Reach(snap[k].kids) : nrc[n] > 0
+    \A k \in locked \ conflictT :
+        /\ VisibleRoot(k).rc > 0
+        /\ VisibleRoot(k).data = snap[k].data /\ VisibleRoot(k).kids = snap[k].kids
+        /\ \A n \in Reach(snap[k].kids) : nrc[n] > 0
 
 \* C10: a tree that is live for the client reads back exactly and completely
 IdealVisible ==
-    conflict \/ \A k \in TKeys : ideal[k].rc > 0 =>
+    \A k \in TKeys \ conflictT : ideal[k].rc > 0 =>
         /\ VisibleRoot(k).data = ideal[k].data /\ VisibleRoot(k).kids = ideal[k].kids
         /\ \A n \in Reach(ideal[k].kids) : nrc[n] > 0
 
 \* C01 for the plain column next to the trees
-XVisible == conflict \/ \A x \in XKeys : VisibleX(x) = idealX[x]
+XVisible == \A x \in XKeys \ conflictX : VisibleX(x) = idealX[x]
 
 Quiescent == queue = <<>> /\ inflight = <<>>
 LiveIdeal == UNION {Reach(ideal[k].kids) : k \in {k \in TKeys : ideal[k].rc > 0}}
@@ -312,12 +326,13 @@ LiveIdeal == UNION {Reach(ideal[k].kids) : k \in {k \in TKeys : ideal[k].rc > 0}
 \* C10/C11: once everything is processed the state is the sequential one, and exactly the
 \* reachable nodes occupy storage (no entries left when no tree is live)
 FinalState ==
-    (Quiescent /\ ~conflict) =>
-        /\ \A k \in TKeys : roots[k] = ideal[k]
-        /\ \A x \in XKeys : xs[x] = idealX[x]
-        /\ {n \in Ids : nrc[n] > 0} = LiveIdeal
+    Quiescent =>
+        /\ \A k \in TKeys \ conflictT : roots[k] = ideal[k]
+        /\ \A x \in XKeys \ conflictX : xs[x] = idealX[x]
+        /\ conflictT = {} => {n \in Ids : nrc[n] > 0} = LiveIdeal
+        /\ LiveIdeal \subseteq {n \in Ids : nrc[n] > 0}
 
-\* the same with the known deferral reordering allowed: used to tell F3 from anything else
+\* the same without the allowance for the known deferral reordering: used to exhibit F3
 FinalStateStrict ==
     Quiescent =>
         /\ \A k \in TKeys : roots[k] = ideal[k]
@@ -327,5 +342,5 @@ FinalStateStrict ==
 Entries == Cardinality({n \in Ids : nrc[n] > 0}) + Cardinality({k \in TKeys : roots[k].rc > 0})
 
 ViewNoHist == <<roots, nrc, nkids, xs, covlT, covlX, queue, inflight, toDeref, locked, snap,
-                nextId, nextCid, ncommits, nlocks, ideal, idealX, conflict, corrupt>>
+                nextId, nextCid, ncommits, nlocks, ideal, idealX, conflictT, conflictX, corrupt>>
 =============================================================================
